@@ -114,7 +114,9 @@ fn check_membership_change(members: &[u64], vn: u32, rf: usize, ks: &[String], r
     let x = *rng.pick(&set);
     let mut removed = base.clone(); removed.remove_node(ReplicaId::new(x));
     let mut readded = removed.clone(); readded.add_node(ReplicaId::new(x));
-    let y = set.iter().max().unwrap_or(&0).wrapping_add(1 + rng.below(50));
+    // a node id that is NOT a member (the maximum may be u64::MAX: wrapping could land on a member)
+    let mut y = set.iter().max().unwrap_or(&0).wrapping_add(1 + rng.below(50));
+    while set.contains(&y) { y = y.wrapping_add(1); }
     let mut grown = base.clone(); grown.add_node(ReplicaId::new(y));
     if removed.contains_node(ReplicaId::new(x)) || removed.node_count() != set.len() - 1 || !grown.contains_node(ReplicaId::new(y)) || grown.node_count() != set.len() + 1 {
         return Some(Found { input: format!("{}; remove_node({}) / add_node({})", cfg(members, vn, rf), x, y), observed: format!("node counts {} and {}", removed.node_count(), grown.node_count()), required: "membership minus / plus that node".into() });
